@@ -213,7 +213,13 @@ def magnitude_strings():
         nm = "n" * (1 << j)
         out += [nm, "sequence<%s>" % nm, "%s<%s,%s>" % (nm, nm, nm)]
     out += SCHEMAS
-    base = list(out)
+    # every short string too (for the str-subclass pass of work_magnitude)
+    import itertools as _it
+
+    for L in range(0, 5):
+        for tup in _it.product(("a", "bool", "<", ">", ","), repeat=L):
+            out.append("".join(tup))
+    base = list(out[:len(out) - 781])
     for s in base:
         if len(s) < 3:
             continue
@@ -233,6 +239,10 @@ def magnitude_strings():
     return out
 
 
+class StrSub(str):
+    """a str subclass instance is a string like any other"""
+
+
 def work_magnitude(chunk):
     import sys
 
@@ -243,6 +253,10 @@ def work_magnitude(chunk):
         n += 1
         try:
             r = classify(s, True)
+            if r is None:
+                r = classify(StrSub(s), True)
+                if r is not None:
+                    r = ("str-subclass:" + r[0], r[1])
         except RecursionError:
             r = ("harness-recursion", "")
         if ref_parse(s) is not None:
@@ -338,7 +352,9 @@ def run(ctx):
         else:
             again = [classify(s, True) for _ in range(3)]
             kinds = {a[0] if a else None for a in again}
-            if kind.replace("magnitude:", "") not in kinds:
+            if kind.replace("magnitude:", "").replace(
+                    "str-subclass:", "") not in kinds and not (
+                    "str-subclass:" in kind and classify(StrSub(s), True)):
                 ctx.unreproduced.append([s, kind])
                 continue
         seen.add(kind)
